@@ -200,7 +200,7 @@ impl Property for C34 {
         ]
     }
     fn cases(&self, tier: Tier) -> u32 {
-        tier.pick(24_000, 1_000_000)
+        tier.pick(200_000, 4_000_000)
     }
     fn strategy(&self, _tier: Tier) -> BoxedStrategy<Input> {
         (prop::collection::vec(piece_strategy(false), 1..5), prop::collection::vec(op_strategy(), 1..6))
